@@ -11,39 +11,43 @@
    The code violates the property on several classes of spellings (witnesses
    below, [*_refuted]); the [*_partial] theorems prove it for all spellings
    outside exactly those classes:
-   - decimal integers with a leading zero (top level and in typed arrays);
-   - separators in explicit-base arrays, repeated separators in implicit-base arrays;
+   - separators in explicit-base arrays, repeated separators in implicit-base
+     arrays (except directly behind leading zeros, which are dropped with them);
    - float16 elements (truncation instead of rounding);
    - decimal float elements with an exponent below about -6.4e8 (accepted as zero);
    - decimal floats whose coefficient is 2^64 or more, or whose exponent
      arithmetic leaves the int32 range;
-   - \[hex] escapes that are not Unicode scalar values (replaced by U+FFFD);
    - verbatim sequences with a sentinel of more than one character or outside
-     ASCII, or with empty contents. *)
+     ASCII, or with empty contents.
+   Repaired in /repo since the first version of this file and now proved
+   without exclusion: decimal integers with leading zeros (601f9e0, 6b24587; 010
+   is ten, 08 is accepted, also in typed arrays, there also 0_10 and 00_8) and \[hex] escapes that are not Unicode
+   scalar values (9d7e9c8; rejected instead of becoming U+FFFD). *)
 From CE Require Import Model.CteLit Proofs.CteLitProofs.
 From CE Require Base.Utf8.
 Open Scope N_scope.
 
 (* ---- integers ---- *)
 
-(* Every integer literal (any base, either prefix case, any separators, sign)
-   other than a decimal one with a leading zero produces exactly its value:
-   OnInt when it fits int64, OnBigInt otherwise, OnNegativeInt(0) for -0. *)
-Theorem C24_int_literal_partial :
+(* Every integer literal (any base, either prefix case, any separators, any
+   leading zeros, sign) produces exactly its value: OnInt when it fits int64,
+   OnBigInt otherwise, OnNegativeInt(0) for -0. *)
+Theorem C24_int_literal_exact :
   forall l : int_lit,
-    int_lit_ok l = true -> leading_zero_dec l = false ->
+    int_lit_ok l = true ->
     impl_int (render_int l) = Ok (spec_int l).
-Proof. exact int_literal_exact. Qed.
-Print Assumptions C24_int_literal_partial.
+Proof. exact int_literal_exact_all. Qed.
+Print Assumptions C24_int_literal_exact.
 
-(* Elements of @iNN[...] arrays (prefix decides the base): the two's complement
-   little-endian bytes of the value if it fits NN bits, rejected otherwise. *)
+(* Elements of @iNN[...] arrays (prefix decides the base; any leading zeros of
+   a decimal element; [single_us_elem]: no repeated separators behind the first
+   significant digit): the two's complement little-endian bytes of the value if
+   it fits NN bits, rejected otherwise. *)
 Theorem C24_int_elem_implicit_partial :
   forall (bits : N) (l : int_lit),
-    elem_bits bits -> int_lit_ok l = true ->
-    leading_zero_dec l = false -> single_us (i_digits l) = true ->
+    elem_bits bits -> int_lit_ok l = true -> single_us_elem l = true ->
     impl_int_elem 0 bits (render_int l) = spec_int_elem bits l.
-Proof. exact int_elem_implicit_exact. Qed.
+Proof. exact int_elem_implicit_exact_all. Qed.
 Print Assumptions C24_int_elem_implicit_partial.
 
 (* Elements of @iNNb / @iNNo / @iNNx arrays, written without separators. *)
@@ -56,10 +60,9 @@ Print Assumptions C24_int_elem_explicit_partial.
 
 Theorem C24_uint_elem_implicit_partial :
   forall (bits : N) (l : int_lit),
-    i_neg l = false -> int_lit_ok l = true ->
-    leading_zero_dec l = false -> single_us (i_digits l) = true ->
+    i_neg l = false -> int_lit_ok l = true -> single_us_elem l = true ->
     impl_uint_elem 0 bits (render_int l) = spec_uint_elem bits l.
-Proof. exact uint_elem_implicit_exact. Qed.
+Proof. exact uint_elem_implicit_exact_all. Qed.
 Print Assumptions C24_uint_elem_implicit_partial.
 
 Theorem C24_uint_elem_explicit_partial :
@@ -152,26 +155,20 @@ Proof. exact named_escapes_exact. Qed.
 Print Assumptions C24_named_escapes.
 
 (* \[hex] with any number of digits and leading zeros: the UTF-8 bytes of the
-   code point (C24_utf8: those bytes decode back to it) ... *)
-Theorem C24_codepoint_partial :
+   code point when it is a Unicode scalar value (C24_utf8: those bytes decode
+   back to it), rejected otherwise (surrogates, above U+10FFFF, beyond 32 bits) *)
+Theorem C24_codepoint_exact :
   forall hx : bytes,
-    hx <> [] -> forallb is_hex hx = true -> hex_val hx < 2 ^ 32 ->
-    impl_codepoint hx = Ok (utf8_enc (hex_val hx)).
-Proof. exact codepoint_exact. Qed.
-Print Assumptions C24_codepoint_partial.
+    hx <> [] -> forallb is_hex hx = true ->
+    impl_codepoint hx = if valid_scalar (hex_val hx) then Ok (utf8_enc (hex_val hx)) else Err.
+Proof. exact codepoint_all. Qed.
+Print Assumptions C24_codepoint_exact.
 
 Theorem C24_utf8 :
   forall v rest, valid_scalar v = true ->
     CE.Base.Utf8.decode_rune (utf8_enc v ++ rest) = Some (v, length (utf8_enc v)).
 Proof. exact utf8_enc_decode. Qed.
 Print Assumptions C24_utf8.
-
-(* ... and rejected beyond 32 bits *)
-Theorem C24_codepoint_too_big :
-  forall hx : bytes,
-    hx <> [] -> forallb is_hex hx = true -> 2 ^ 32 <= hex_val hx -> impl_codepoint hx = Err.
-Proof. exact codepoint_too_big. Qed.
-Print Assumptions C24_codepoint_too_big.
 
 (* A whole string body (plain characters, named escapes, \[hex] of scalar
    values, line continuations, verbatim sequences with a one-character ASCII
@@ -190,21 +187,14 @@ Definition C24_full : Prop :=
   full_int /\ full_int_elem /\ full_int_elem_explicit /\ full_uint_elem /\ full_uint_elem_explicit /\
   full_float_elem /\ full_decimal /\ full_codepoint /\ full_string.
 
-(* 010 is read as 8 *)
-Theorem C24_int_refuted :
-  exists l, int_lit_ok l = true /\ impl_int (render_int l) <> Ok (spec_int l).
-Proof. exact full_int_refuted. Qed.
-Print Assumptions C24_int_refuted.
-(* 08 is rejected *)
-Theorem C24_int_refuted_rejects :
-  exists l, int_lit_ok l = true /\ impl_int (render_int l) = Err.
-Proof. exact full_int_refuted_rejects. Qed.
-Print Assumptions C24_int_refuted_rejects.
-(* @i8[010] *)
-Theorem C24_int_elem_refuted_leading_zero :
-  exists l, int_lit_ok l = true /\ impl_int_elem 0 8 (render_int l) <> spec_int_elem 8 l.
-Proof. exact full_int_elem_refuted_leading_zero. Qed.
-Print Assumptions C24_int_elem_refuted_leading_zero.
+(* repaired parts of the full property *)
+Theorem C24_full_int : full_int.
+Proof. exact full_int_holds. Qed.
+Print Assumptions C24_full_int.
+Theorem C24_full_codepoint : full_codepoint.
+Proof. exact full_codepoint_holds. Qed.
+Print Assumptions C24_full_codepoint.
+
 (* @i8[1__0] *)
 Theorem C24_int_elem_refuted_separators :
   exists l, int_lit_ok l = true /\ leading_zero_dec l = false /\
@@ -217,9 +207,10 @@ Theorem C24_int_elem_explicit_refuted :
             impl_int_elem (ibase_n (i_base l)) 16 (render_int_noprefix l) <> spec_int_elem 16 l.
 Proof. exact full_int_elem_explicit_refuted. Qed.
 Print Assumptions C24_int_elem_explicit_refuted.
-(* @u8[08] *)
+(* @u8[1__0] is rejected *)
 Theorem C24_uint_elem_refuted :
-  exists l, i_neg l = false /\ int_lit_ok l = true /\ impl_uint_elem 0 8 (render_int l) <> spec_uint_elem 8 l.
+  exists l, i_neg l = false /\ int_lit_ok l = true /\
+            impl_uint_elem 0 8 (render_int l) <> spec_uint_elem 8 l.
 Proof. exact full_uint_elem_refuted. Qed.
 Print Assumptions C24_uint_elem_refuted.
 (* @u8x[f_f] *)
@@ -259,12 +250,6 @@ Theorem C24_decimal_refuted_exponent :
             impl_float (render_float l) = Ok (RDec 155 2147483647) /\ float_exp l = (-2147483649)%Z.
 Proof. exact full_decimal_refuted_exponent. Qed.
 Print Assumptions C24_decimal_refuted_exponent.
-(* \[d800] *)
-Theorem C24_codepoint_refuted :
-  exists hx, hx <> [] /\ forallb is_hex hx = true /\ valid_scalar (hex_val hx) = false /\
-             impl_codepoint hx = Ok [239; 191; 189].
-Proof. exact full_codepoint_refuted. Qed.
-Print Assumptions C24_codepoint_refuted.
 (* '\.ab ab' *)
 Theorem C24_string_refuted_empty_verbatim :
   exists items, items_ok items = true /\ body_value items = [] /\ impl_string (render_body items) = Ok [98].
@@ -291,6 +276,17 @@ Proof. exact full_all_refuted. Qed.
 Print Assumptions C24_full_refuted.
 
 (* ---- the hypotheses are satisfiable on non-trivial spellings ---- *)
+
+(* the witnesses of the repaired defects: 010 is ten, 08 is eight, @i8[010],
+   @u32[0008], @i8[0_10], @i8[00_8], @u8[0_8], @i8[0__1], and \[d800] is rejected *)
+Example C24_example_repaired :
+  impl_int [48; 49; 48] = Ok (RInt 10) /\ impl_int [48; 56] = Ok (RInt 8) /\
+  impl_int [45; 48; 48] = Ok (RNegInt 0) /\
+  impl_int_elem 0 8 [48; 49; 48] = Ok [10] /\ impl_uint_elem 0 32 [48; 48; 48; 56] = Ok [8; 0; 0; 0] /\
+  impl_int_elem 0 8 [48; 95; 49; 48] = Ok [10] /\ impl_int_elem 0 8 [48; 48; 95; 56] = Ok [8] /\
+  impl_uint_elem 0 8 [48; 95; 56] = Ok [8] /\ impl_int_elem 0 8 [48; 95; 95; 49] = Ok [1] /\
+  impl_codepoint [100; 56; 48; 48] = Err /\ impl_codepoint [49; 49; 48; 48; 48; 48] = Err.
+Proof. vm_compute. repeat split. Qed.
 
 (* -0X1_F *)
 Example C24_example_int :
